@@ -1407,6 +1407,12 @@ class Process(StateMachine, persistence.Savable, metaclass=ProcessStateMachineMe
                     break
                 action.run(None)
 
+            action = self._interrupt_action
+            if self.has_terminated() and action is not None and not action.done():
+                # Requested while the process was already moving into its terminal state: there is nothing left to
+                # carry out, but whoever holds the action must not wait for ever
+                action.set_result(isinstance(action.cookie, process_states.KillInterruption) and self.killed())
+
         finally:
             self._stepping = False
             # Drop the interrupt action once it has been executed (or withdrawn). An action that is still pending
